@@ -282,9 +282,8 @@ namespace glm
 	template<typename T>
 	GLM_FUNC_QUALIFIER vec<3, T, defaultp> make_vec3(T const *const ptr)
 	{
-		vec<3, T, defaultp> Result;
-		memcpy(value_ptr(Result), ptr, sizeof(vec<3, T, defaultp>));
-		return Result;
+		// component-wise: an aligned vec3 is padded to four components, the source array is not
+		return vec<3, T, defaultp>(ptr[0], ptr[1], ptr[2]);
 	}
 
 	template<typename T>
@@ -306,8 +305,11 @@ namespace glm
 	template<typename T>
 	GLM_FUNC_QUALIFIER mat<2, 3, T, defaultp> make_mat2x3(T const *const ptr)
 	{
+		// component-wise: aligned 3-component columns are padded to four components, the source array is not
 		mat<2, 3, T, defaultp> Result;
-		memcpy(value_ptr(Result), ptr, sizeof(mat<2, 3, T, defaultp>));
+		for(length_t c = 0; c < 2; ++c)
+			for(length_t r = 0; r < 3; ++r)
+				Result[c][r] = ptr[c * 3 + r];
 		return Result;
 	}
 
@@ -330,8 +332,11 @@ namespace glm
 	template<typename T>
 	GLM_FUNC_QUALIFIER mat<3, 3, T, defaultp> make_mat3x3(T const *const ptr)
 	{
+		// component-wise: aligned 3-component columns are padded to four components, the source array is not
 		mat<3, 3, T, defaultp> Result;
-		memcpy(value_ptr(Result), ptr, sizeof(mat<3, 3, T, defaultp>));
+		for(length_t c = 0; c < 3; ++c)
+			for(length_t r = 0; r < 3; ++r)
+				Result[c][r] = ptr[c * 3 + r];
 		return Result;
 	}
 
@@ -354,8 +359,11 @@ namespace glm
 	template<typename T>
 	GLM_FUNC_QUALIFIER mat<4, 3, T, defaultp> make_mat4x3(T const *const ptr)
 	{
+		// component-wise: aligned 3-component columns are padded to four components, the source array is not
 		mat<4, 3, T, defaultp> Result;
-		memcpy(value_ptr(Result), ptr, sizeof(mat<4, 3, T, defaultp>));
+		for(length_t c = 0; c < 4; ++c)
+			for(length_t r = 0; r < 3; ++r)
+				Result[c][r] = ptr[c * 3 + r];
 		return Result;
 	}
 
